@@ -8,6 +8,7 @@ import Drivers.Matrix
 import Drivers.Comm
 import Drivers.NodeCell
 import Drivers.Codec
+import Drivers.Par
 
 /-! `refdrv <driver> [args]` : dispatch to a line-protocol driver. One match arm per driver, on one line. -/
 
@@ -21,6 +22,7 @@ def main (args : List String) : IO UInt32 := do
   | "comm" :: rest => Drivers.Comm.run rest
   | "nodecell" :: rest => Drivers.NodeCell.run rest
   | "codec" :: rest => Drivers.Codec.run rest
+  | "par" :: rest => Drivers.Par.run rest
   | _ =>
     IO.eprintln s!"refdrv: unknown driver {args}"
     return 2
